@@ -280,7 +280,7 @@ let run (args : string list) : string =
     hex_of_s p ^ ":" ^ (match sheet_type_of p with Some t -> string_of_n t | None -> "-")
   | ["eic"; a; b] -> if eq_ignore_ascii_case (s_of_hex a) (s_of_hex b) then "1" else "0"
   | ["groc"; h] ->
-    (match get_row_and_optional_column_x (bytes_of_hex h) with
+    (match Col26.get_row_and_optional_column (bytes_of_hex h) with
      | Ok (r, Some c) -> Printf.sprintf "ok:%s,%s" (string_of_n r) (string_of_n c)
      | Ok (r, None) -> Printf.sprintf "ok:%s,-" (string_of_n r)
      | Err _ -> "err" | Panic -> "panic" | OutOfFuel -> "fuel")
